@@ -243,7 +243,8 @@ cfg_params = st.fixed_dictionaries({
     'proto': st.sampled_from(['esp', 'esp', 'ah']), 'n': st.sampled_from([1, 2, 2]),
     'pfs': st.sampled_from([None, None, '19']),
     'bad': st.sampled_from([None, None, 'integ', 'mode', 'pfs', 'pfs-disjoint', 'encr']),
-    'ike_dh_mismatch': st.booleans()})
+    'ike_dh_mismatch': st.booleans(), 'v6': st.sampled_from([False, False, True]),
+    'mixed': st.sampled_from([False, False, False, True])})
 
 
 def rewrite_ops():
@@ -290,7 +291,8 @@ EDITS = ([['error', e] for e in SM.ERRORS] + [['drop', t] for t in ('KE', 'SA', 
 def grid_cases():
     """every (trigger, side, request|response, edit): the peer answers (or asks) something else than expected"""
     out = []
-    for cfgp in ({'dh': '19', 'n': 2}, {'dh': '19', 'n': 2, 'pfs': '19', 'mode': 'tunnel', 'proto': 'ah'}):
+    for cfgp in ({'dh': '19', 'n': 2}, {'dh': '19', 'n': 2, 'pfs': '19', 'mode': 'tunnel', 'proto': 'ah'},
+                 {'dh': '19', 'n': 2, 'mixed': True}, {'dh': '19', 'n': 1, 'mixed': True, 'v6': True}):
         for t in c09.TRIGGERS:
             for side in 'ab':
                 for target in ('req', 'res'):
